@@ -51,7 +51,7 @@ PROPS = {
     },
     "C04": {
         "module": "Shutter.Properties.C04",
-        "theorems": ["C04_shares_iff", "C04_keys_iff", "C04_no_effect", "C04_nondecreasing_pairwise", "C04_sql_pinned"],
+        "theorems": ["C04_shares_iff", "C04_keys_iff", "C04_no_effect", "C04_combine_accept_iff", "C04_nondecreasing_pairwise", "C04_sql_pinned"],
         "driver": {"pkg": "./cmd/valcheck"},
         "facts": ["sql"],
         "trusted_base": [KERNEL, CORR,
